@@ -24,7 +24,7 @@ import (
 
 func TestMain(m *testing.M) { kit.Main(m) }
 
-const rule = "faithful part: tags rendered from a generated (value, [(name, items)]) structure with balanced (possibly nested, mixed {[( ) bracket groups containing commas, spaces and '=' inside value and items, repeated names and first-letter case variants, flag arguments and empty item lists - parsed by NewProperty and compared with the structure; end-to-end on run-time built structs (required/optional behaviour, prop shorthand split); totality part: arbitrary strings over a hostile alphabet and arbitrary bytes (rapid + native fuzzing) must parse without panic, and a point may only be optional if the text contains an explicit required=false; non-trivial = structure has >=2 arguments or a bracket group containing a comma/space; distinct by rendered tag"
+const rule = "faithful part: tags rendered from a generated (value, [(name, items)]) structure with balanced (possibly nested, mixed {[( ) bracket groups containing commas, spaces and '=' inside value and items, repeated names and first-letter case variants, flag arguments and empty item lists - parsed by NewProperty and compared with the structure; end-to-end on run-time built structs (required/optional behaviour, prop shorthand split); totality part: arbitrary strings over a hostile alphabet and arbitrary bytes (rapid + native fuzzing) must parse without panic, and a point may only be optional if the text contains an explicit required=false; non-trivial = structure has >=2 arguments or a bracket group containing a comma/space; distinct by rendered tag; since round 8 also pointer-typed points in the required / optional end-to-end check"
 
 type holder struct{ F any }
 
